@@ -1044,7 +1044,8 @@ Theorem parse_json_too_deep : forall v,
 Proof. intros v Hwf. apply parse_json_too_deep'. apply wf_lex_wf_lex'. exact Hwf. Qed.
 
 (* ------------------------------------------------------------------------ *)
-(* 7. T5: normalize is the identity on serde_json::Values *)
+(* 7. T5: normalize is the identity on serde_json::Values (IndexMap objects: keys pairwise
+      distinct, any order) *)
 
 Fixpoint norm_go (l m : list (bytes * json)) : list (bytes * json) :=
   match l with
@@ -1057,46 +1058,51 @@ Proof. reflexivity. Qed.
 Lemma normalize_arr : forall l, normalize (JArr l) = JArr (map normalize l).
 Proof. reflexivity. Qed.
 
-Definition all_lt (m : list (bytes * json)) (k : bytes) : Prop :=
-  Forall (fun kv => lex_ltb (fst kv) k = true) m.
-
-Lemma obj_insert_last : forall m k x, all_lt m k -> obj_insert k x m = m ++ [(k, x)].
+(* an IndexMap insert of a key that is not present appends *)
+Lemma obj_insert_fresh : forall m k x, key_in k m = false -> obj_insert k x m = m ++ [(k, x)].
 Proof.
-  intros m k x H. induction H as [|[k' v'] m Hk Hm IH]; cbn [obj_insert app].
+  intros m k x; induction m as [|[k' v'] m IH]; intros H; cbn [obj_insert app].
   - reflexivity.
-  - cbn [fst] in Hk. rewrite (lex_ltb_asym _ _ Hk).
-    assert (E : bytes_eqb k k' = false).
-    { apply bytes_eqb_neq. intros ->. rewrite lex_ltb_irrefl in Hk. discriminate. }
-    rewrite E, IH. reflexivity.
+  - unfold key_in in H. cbn [existsb fst] in H. apply orb_false_elim in H. destruct H as [E H].
+    rewrite E, (IH H). reflexivity.
 Qed.
 
-Lemma sorted_keys_cons : forall k x r,
-  sorted_keys ((k, x) :: r) = true ->
-  sorted_keys r = true /\ match r with (k2, _) :: _ => lex_ltb k k2 = true | [] => True end.
+Lemma key_in_app : forall k a b, key_in k (a ++ b) = key_in k a || key_in k b.
+Proof. intros. unfold key_in. apply existsb_app. Qed.
+
+Lemma key_in_false : forall k r, key_in k r = false ->
+  Forall (fun kv => bytes_eqb k (fst kv) = false) r.
 Proof.
-  intros k x [|[k2 x2] r] H.
-  - split; [reflexivity | exact I].
-  - change (lex_ltb k k2 && sorted_keys ((k2, x2) :: r) = true) in H.
-    apply andb_prop in H. tauto.
+  intros k r; induction r as [|kv r IH]; intros H; [constructor|].
+  unfold key_in in H. cbn [existsb] in H. apply orb_false_elim in H. destruct H as [E H].
+  constructor; [exact E | apply IH; exact H].
 Qed.
 
-Lemma norm_go_sorted : forall l m,
-  sorted_keys l = true ->
-  match l with (k, _) :: _ => all_lt m k | [] => True end ->
+Lemma nodup_keys_cons : forall k x r,
+  nodup_keys ((k, x) :: r) = true -> key_in k r = false /\ nodup_keys r = true.
+Proof.
+  intros k x r H. cbn [nodup_keys] in H. apply andb_prop in H. destruct H as [H1 H2].
+  split; [apply negb_true_iff; exact H1 | exact H2].
+Qed.
+
+(* folding the inserts over members with pairwise distinct keys, none of them in m already,
+   appends them in order *)
+Lemma norm_go_nodup : forall l m,
+  nodup_keys l = true ->
+  Forall (fun kv => key_in (fst kv) m = false) l ->
   Forall (fun kv => normalize (snd kv) = snd kv) l ->
   norm_go l m = m ++ l.
 Proof.
   intros l; induction l as [|[k x] r IH]; intros m Hs Hm Hn; cbn [norm_go].
   - rewrite app_nil_r. reflexivity.
   - inversion Hn as [|? ? Nx Nr]; subst. cbn [snd] in Nx. rewrite Nx.
-    rewrite (obj_insert_last m k x Hm).
-    apply sorted_keys_cons in Hs. destruct Hs as [Hs Hk].
+    inversion Hm as [|? ? Mk Mr]; subst. cbn [fst] in Mk.
+    rewrite (obj_insert_fresh m k x Mk).
+    apply nodup_keys_cons in Hs. destruct Hs as [Hk Hs].
     rewrite IH; [rewrite <- app_assoc; reflexivity | exact Hs | | exact Nr].
-    destruct r as [|[k2 x2] r2]; [exact I|].
-    apply Forall_app. split.
-    + eapply Forall_impl; [|exact Hm]. cbv beta. intros kv Hkv.
-      eapply lex_ltb_trans; eassumption.
-    + constructor; [exact Hk | constructor].
+    apply key_in_false in Hk. rewrite Forall_forall in *. intros kv Hin.
+    rewrite key_in_app, (Mr kv Hin). unfold key_in at 1. cbn [existsb fst orb].
+    rewrite bytes_eqb_sym, (Hk kv Hin). reflexivity.
 Qed.
 
 Theorem normalize_wf : forall v, wf_value v = true -> normalize v = v.
@@ -1109,10 +1115,18 @@ Proof.
     cbn [map]. rewrite (Hx Wx), (IHr Wr). reflexivity.
   - rewrite normalize_obj. f_equal. cbn [wf_value] in Hwf.
     apply andb_prop in Hwf. destruct Hwf as [Hs Hw].
-    rewrite norm_go_sorted; [reflexivity | exact Hs | destruct l as [|[k x] r]; [exact I | constructor] |].
+    rewrite norm_go_nodup; [reflexivity | exact Hs | apply Forall_forall; intros; reflexivity |].
     clear Hs. induction IH as [|[k x] r Hx Hr IHr]; [constructor|].
     cbn [forallb] in Hw. apply andb_prop in Hw. destruct Hw as [Wx Wr].
     constructor; [cbn [snd] in *; exact (Hx Wx) | exact (IHr Wr)].
+Qed.
+
+(* a duplicate key keeps its first position and takes the last value *)
+Theorem normalize_dup_last : forall k v w,
+  normalize (JObj [(k, v); (k, w)]) = JObj [(k, normalize w)].
+Proof.
+  intros k v w. rewrite normalize_obj. cbn [norm_go obj_insert].
+  rewrite bytes_eqb_refl. reflexivity.
 Qed.
 
 (* ------------------------------------------------------------------------ *)
@@ -1269,6 +1283,7 @@ Print Assumptions parse_json_print.
 Print Assumptions too_deep_value.
 Print Assumptions parse_json_too_deep.
 Print Assumptions normalize_wf.
+Print Assumptions normalize_dup_last.
 Print Assumptions frame_roundtrip.
 Print Assumptions frame_poison.
 Print Assumptions accepted_is_readable.
